@@ -297,6 +297,29 @@ fn show_row(r: &Row) -> String {
 trait Wire: Sized {
     fn dec(s: &str) -> Option<Self>;
     fn enc(&self) -> String;
+    /// edit the value in place where the type is a live tree (Relations): used to check that a value
+    /// a getter returned earlier does not alias what a later getter call returns
+    fn poke(&mut self) {}
+}
+
+thread_local! {
+    static ALIAS_FAIL: std::cell::RefCell<Option<String>> = const { std::cell::RefCell::new(None) };
+}
+
+/// a getter is a function of the raw field: call it, edit the returned value in place, call it
+/// again — the second reading must be the first one (after seeded change C15-r6m1: a cache that
+/// hands out the same mutable tree for the same field text)
+fn get_twice<T: Wire>(mut f: impl FnMut() -> T) -> String {
+    let mut x = f();
+    let e1 = x.enc();
+    x.poke();
+    let e2 = f().enc();
+    if e1 != e2 {
+        ALIAS_FAIL.with(|a| {
+            *a.borrow_mut() = Some(format!("getter result changed after a value it returned earlier was edited in place: {} then {}", e1, e2))
+        });
+    }
+    e1
 }
 
 /// an element of a list value / a value carried by its text form
@@ -350,8 +373,22 @@ macro_rules! wire_elem {
         }
     )*};
 }
-wire_elem!(String, Priority, MultiArch, Urgency, Version, Url, Relations, Forwarded, AppliedUpstream, usize,
+wire_elem!(String, Priority, MultiArch, Urgency, Version, Url, Forwarded, AppliedUpstream, usize,
     DateTime<FixedOffset>, NaiveDate);
+
+impl Wire for Relations {
+    fn dec(s: &str) -> Option<Self> {
+        <Relations as Elem>::from_text(&ds(s)?)
+    }
+    fn enc(&self) -> String {
+        es(&self.to_text())
+    }
+    fn poke(&mut self) {
+        if let Ok(e) = "zz-poked (= 9)".parse::<debian_control::lossless::relations::Entry>() {
+            self.push(e);
+        }
+    }
+}
 
 impl<T: Elem> Wire for Vec<T> {
     fn dec(s: &str) -> Option<Self> {
@@ -364,6 +401,11 @@ impl<T: Elem> Wire for Vec<T> {
 }
 
 impl<T: Wire> Wire for Option<T> {
+    fn poke(&mut self) {
+        if let Some(v) = self {
+            v.poke();
+        }
+    }
     fn dec(s: &str) -> Option<Self> {
         if s == "none" {
             Some(None)
@@ -645,7 +687,7 @@ macro_rules! acc {
             view: $view,
             getter: Some(stringify!($get)),
             setter: Some(stringify!($set)),
-            get: Some(|h, i| with_view!($vid, h, i, v, v.$get().enc())),
+            get: Some(|h, i| with_view!($vid, h, i, v, get_twice(|| v.$get()))),
             set: Some(|h, i, val| {
                 let x = <$ty as Wire>::dec(val)?;
                 with_view!($vid, h, i, v, { pass!($mode, v, $set, x); })
@@ -663,7 +705,7 @@ macro_rules! getter {
             view: $view,
             getter: Some(stringify!($get)),
             setter: None,
-            get: Some(|h, i| with_view!($vid, h, i, v, v.$get().enc())),
+            get: Some(|h, i| with_view!($vid, h, i, v, get_twice(|| v.$get()))),
             set: None,
             canon: None,
             wire: "",
@@ -1135,6 +1177,15 @@ fn setget(a: &Acc, text: &str, idx: usize, value: &str) -> Option<Resp> {
 }
 
 pub fn handle(op: &str, a: &[&str]) -> Option<Resp> {
+    ALIAS_FAIL.with(|x| *x.borrow_mut() = None);
+    let mut r = handle_inner(op, a)?;
+    if r.fail.is_none() {
+        r.fail = ALIAS_FAIL.with(|x| x.borrow_mut().take());
+    }
+    Some(r)
+}
+
+fn handle_inner(op: &str, a: &[&str]) -> Option<Resp> {
     match (op, a) {
         ("acc.setget", [view, name, doc, idx, value]) => {
             let acc = find_acc(view, name)?;
